@@ -571,13 +571,46 @@ def translate(repo_root):
 _REG = {}
 
 
-def _registered():
+def behavioural_rows(repo_root):
+    """fallback when the AST of register_default_runners is not of the recognised shape: the same rows read off the
+    registered runner objects (is there a Retry in the delegate chain, its retry_until_success) + docs/track.rst"""
+    from esrally import track, exceptions
+    from esrally.driver import runner
+
+    doc = documented_retryable(repo_root)
+    rows = []
+    for m in sorted(track.OperationType, key=lambda m: m.to_hyphenated_string()):
+        hy = m.to_hyphenated_string()
+        try:
+            x = runner.runner_for(hy)
+        except exceptions.RallyError:
+            x = None
+        registered, found = x is not None, None
+        while x is not None:
+            if isinstance(x, runner.Retry) and found is None:
+                found = x
+            x = getattr(x, "delegate", None)
+        rows.append({"op": hy, "registered": registered, "wrapped": found is not None, "until": bool(getattr(found, "retry_until_success", False)),
+                     "has_doc": hy in doc, "doc_retryable": bool(doc.get(hy, False))})
+    return rows
+
+
+def _registered(ctx=None):
     if not _REG:
         from esrally.driver import runner
         from harness.framework import REPO
 
         runner.register_default_runners()
-        _REG["rows"] = {r["op"]: r for r in wrapped_rows(REPO)}
+        try:
+            _REG["rows"] = {r["op"]: r for r in wrapped_rows(REPO)}
+            _REG["ast_error"] = None
+        except ValueError as e:
+            # register_default_runners no longer has the shape the translator recognises: a broken obligation (reported as a
+            # correspondence difference), but the behavioural streams and their oracles go on with the rows read off the objects
+            _REG["rows"] = {r["op"]: r for r in behavioural_rows(REPO)}
+            _REG["ast_error"] = str(e)
+    if ctx is not None and _REG["ast_error"]:
+        ctx.diff("registration table", "recognised shape", _REG["ast_error"])
     return _REG["rows"]
 
 
@@ -628,13 +661,7 @@ def run_registered(ctx, case):
     from esrally.driver import runner
     from esrally import exceptions
 
-    try:
-        rows = _registered()
-    except ValueError as e:
-        # register_default_runners no longer has the shape the translator recognises: broken obligation, not a harness error
-        ctx.diff("registration table", "recognised shape", str(e))
-        ctx.sig(["table", "unrecognised"], nontrivial=False)
-        return
+    rows = _registered(ctx)
     op, pw, outs = case["op"], case["p"], case["outs"]
     row = rows.get(op)
     if row is None:
@@ -691,8 +718,381 @@ def run_registered(ctx, case):
     ctx.sig([op, row["wrapped"], row["until"], res[0], len(trace)], nontrivial=bool(outs))
 
 
+# ---------------------------------------------------------------------------------------------
+# consecutive invocations of a task: the REAL runner bodies, one params dict per task (as ParamSource hands out)
+# ---------------------------------------------------------------------------------------------
+RETRY_KEYS = {"until": "retry-until-success", "retries": "retries", "on_error": "retry-on-error", "wait": "retry-wait-period", "on_timeout": "retry-on-timeout"}
+ATTEMPT_CAP = 24       # more delegate invocations than this in one invocation of the task = "would go on" (pending)
+ES_CALL_CAP = 400      # client calls inside one attempt (polling runners against a fake cluster)
+
+
+class Abort(BaseException):
+    pass
+
+
+class Lenient(dict):
+    """a permissive, awaitable Elasticsearch response document of a small healthy cluster"""
+
+    CANNED = {
+        "status": lambda: "green", "relocating_shards": lambda: 0, "timed_out": lambda: False, "acknowledged": lambda: True, "errors": lambda: False,
+        "took": lambda: 1, "count": lambda: 1, "is_running": lambda: False, "is_partial": lambda: False, "id": lambda: "id-1",
+        "nodes": lambda: Lenient({"n1": Lenient({"name": "n1", "roles": ["data", "master"]})}),
+    }
+
+    def __missing__(self, k):
+        f = Lenient.CANNED.get(k)
+        return f() if f else Lenient()
+
+    def get(self, k, d=None):
+        if dict.__contains__(self, k):
+            return dict.__getitem__(self, k)
+        return self[k] if k in Lenient.CANNED else d
+
+    @property
+    def body(self):
+        return self
+
+    def __await__(self):
+        if False:
+            yield
+        return self
+
+
+class FakeES:
+    """stands for the Elasticsearch client: every attribute path is an API; calling it asks `plan(path, args, kwargs)`"""
+
+    def __init__(self, plan, path=()):
+        self._plan, self._path = plan, path
+
+    def __getattr__(self, name):
+        if name.startswith("__"):
+            raise AttributeError(name)
+        return FakeES(self._plan, self._path + (name,))
+
+    def options(self, **kw):
+        return self
+
+    def __call__(self, *a, **kw):
+        return self._plan(".".join(self._path), a, kw)
+
+
+PARAM_VALUES = {
+    "index": "idx", "body": {}, "name": "n", "source-index": "src", "target-index": "tgt", "target-body": {"settings": {}}, "indices": [["idx", {}]],
+    "templates": [["t", {}]], "repository": "repo", "snapshot": "snap", "pipeline": "p", "id": "i", "transform-id": "t", "policy-name": "pol",
+    "datafeed-id": "d", "job-id": "j", "data-streams": ["ds"], "path": "/_cluster/health", "query": "from idx", "duration": 0, "fixed-interval": "1h",
+}
+
+
+def _run(coro):
+    return _loop().run_until_complete(coro)
+
+
+_BASE_PARAMS = {}
+
+
+def base_params(op, registered):
+    """operation parameters that get the real runner body as far as possible: mandatory keys are discovered from the
+    runner's own complaints (DataError of `mandatory(...)`) against a healthy fake cluster (set-up only, nothing is judged)"""
+    import asyncio
+    import copy
+    from esrally import exceptions
+
+    if op in _BASE_PARAMS:
+        return copy.deepcopy(_BASE_PARAMS[op])
+    params = {"operation-type": op, "name": op}
+    count = {"n": 0}
+
+    def plan(path, a, kw):
+        count["n"] += 1
+        if count["n"] > ES_CALL_CAP:
+            raise Abort()
+        return _canned(path)
+
+    async def fake_sleep(d, result=None):
+        return result
+
+    orig = asyncio.sleep
+    asyncio.sleep = fake_sleep
+    try:
+        for _ in range(12):
+            count["n"] = 0
+            try:
+                _run(registered({"default": FakeES(plan)}, copy.deepcopy(params)))
+                break
+            except exceptions.DataError as e:
+                m = re.search(r"mandatory parameter '([^']+)'", str(e))
+                if not m or m.group(1) in params:
+                    break
+                params[m.group(1)] = copy.deepcopy(PARAM_VALUES.get(m.group(1), "x"))
+            except (Abort, Exception):  # pylint: disable=broad-except
+                break
+    finally:
+        asyncio.sleep = orig
+    _BASE_PARAMS[op] = params
+    return copy.deepcopy(params)
+
+
+def _canned(path):
+    if path == "indices.get":
+        return Lenient({"src-1": Lenient(), "src-2": Lenient()})
+    return Lenient()
+
+
+def classify_outcome(is_value, obj):
+    """the outcome class of what a delegate invocation produced (the property's classes, by isinstance)"""
+    import socket
+    import elasticsearch
+    import elastic_transport
+
+    if is_value:
+        if isinstance(obj, dict):
+            return "dictOk" if obj.get("success", True) else "dictFail"
+        return "nonDict"
+    if isinstance(obj, socket.timeout):
+        return "sockTimeout"
+    if isinstance(obj, elasticsearch.exceptions.ConnectionTimeout):
+        return "connTimeout"
+    if isinstance(obj, elasticsearch.exceptions.ConnectionError):
+        return "connError"
+    if isinstance(obj, elasticsearch.ApiError):
+        return "api408" if obj.status_code == 408 else "apiOther"
+    if isinstance(obj, elastic_transport.TransportError):
+        return "transportOther"
+    return "otherExc"
+
+
+_ABSENT = "<absent>"
+
+
+def retry_view(params):
+    return {k: (params[name] if name in params else _ABSENT) for k, name in RETRY_KEYS.items()}
+
+
+def encode_view_value(k, v):
+    """wire value for the model; raises ValueError when the value is outside the model's domain"""
+    if k == "retries":
+        if isinstance(v, bool) or not isinstance(v, int):
+            raise ValueError("retries is not an int")
+        return v
+    if k == "wait":
+        if isinstance(v, bool) or not isinstance(v, (int, float)):
+            raise ValueError("retry-wait-period is not a number")
+        f = Fraction(v)
+        return f"{f.numerator}/{f.denominator}"
+    return bool(v)
+
+
+def view_update(v0, v1):
+    upd = {}
+    for k in RETRY_KEYS:
+        if v0[k] is not v1[k] and v0[k] != v1[k] or type(v0[k]) is not type(v1[k]):
+            upd[k] = None if v1[k] == _ABSENT else encode_view_value(k, v1[k])
+    return upd or None
+
+
+FAULTS = ["connTimeout", "connError", "sockTimeout", "api408", "apiOther", "transportOther", "otherExc"]
+
+
+def gen_task_invocations(ctx):
+    """every operation type x task parameters x shared / fresh params dict x several consecutive invocations whose
+    per-attempt plans (healthy, forced unsuccessful result, fault on the n-th client call) outlast the budget or not"""
+    from esrally import track
+
+    ops = sorted(m.to_hyphenated_string() for m in track.OperationType)
+    rng = ctx.rng
+    mine = [op for i, op in enumerate(ops) if i % ctx.nshards == ctx.shard]
+    fixed_params = [{"retries": 1, "wait": ["f", "0.25"]}, {"retries": 2, "on_error": True, "wait": ["i", 1]}, {}, {"retries": 0, "on_timeout": False}]
+    for op in mine:
+        for pw in fixed_params:
+            r = pw.get("retries", 0)
+            long_to = [["connTimeout", 1, 0]] * (r + 3)
+            long_fail = [["fail"]] * (r + 3)
+            for shared in (True, False):
+                yield {"op": op, "p": pw, "shared": shared, "invs": [[["ok"]], long_to, [["ok"]], long_fail]}
+                yield {"op": op, "p": pw, "shared": shared, "invs": [long_to, [["ok"], ["ok"]], [["connError", 2, 1]] * (r + 3)]}
+                yield {"op": op, "p": pw, "shared": shared, "invs": [[["connTimeout", 6, 0], ["ok"]], [["api408", 1, 0]] * (r + 3), [["connTimeout", 9, 2]] * (r + 3)]}
+        for _ in range(max(0, ctx.budget // max(1, len(mine)) - 24)):
+            n = rng.choice([2, 3])
+            pw = gen_params(rng, n)
+            pw["ctor"] = None
+            if pw.get("retries") is not None and pw["retries"] > 4:
+                pw["retries"] = rng.choice([1, 2, 3])
+            if rng.random() < 0.8:
+                pw["until"] = None if rng.random() < 0.7 else False
+            invs = []
+            for _i in range(rng.choice([2, 2, 3, 4])):
+                L = rng.choice([0, 1, 2, 3, 5, 8])
+                mode = rng.random()
+                plan = []
+                for _j in range(L):
+                    if mode < 0.35:
+                        plan.append([rng.choice(["connTimeout", "connError", "sockTimeout", "api408"]), rng.choice([1, 1, 2, 3, 5, 8]), rng.randrange(NVARIANTS)])
+                    elif mode < 0.5:
+                        plan.append(["fail"])
+                    else:
+                        b = rng.random()
+                        plan.append(["ok"] if b < 0.25 else ["fail"] if b < 0.4 else [rng.choice(FAULTS), rng.choice([1, 1, 2, 3, 5, 8]), rng.randrange(NVARIANTS)])
+                invs.append(plan)
+            yield {"op": op, "p": pw, "shared": rng.random() < 0.7, "invs": invs}
+
+
+def run_task_invocations(ctx, case):
+    import asyncio
+    import copy
+    from esrally.driver import runner
+    from esrally.track import params as track_params
+    from esrally import exceptions
+
+    rows = _registered(ctx)
+    op, pw, shared, invs = case["op"], case["p"], case["shared"], case["invs"]
+    row = rows.get(op)
+    if row is None:
+        raise HarnessError(f"unknown operation type {op}")
+    try:
+        registered = runner.runner_for(op)
+    except exceptions.RallyError:
+        ctx.sig(["unregistered"], nontrivial=False)
+        return
+    inner = runner.unwrap(registered)
+    cls = type(inner)
+    task_params = base_params(op, registered)
+    task_params.update(wire_params(pw))
+    pristine = copy.deepcopy(task_params)
+    task_view = retry_view(pristine)
+    # the driver asks the task's parameter source before every invocation; the default one hands out the same dict
+    source = track_params.ParamSource(None, task_params)
+    st = {"attempts": None, "trace": None, "depth": 0, "es_calls": 0, "fault": None, "plan": None, "inner_sleeps": 0}
+
+    def es_plan(path, a, kw):
+        st["es_calls"] += 1
+        if st["es_calls"] > ES_CALL_CAP:
+            raise Abort("inner")
+        f = st["fault"]
+        if f is not None and st["es_calls"] == f[1]:
+            raise make_outcome(f[0], f[2], len(st["attempts"]))[1]
+        return _canned(path)
+
+    es = {"default": FakeES(es_plan)}
+    orig_call = cls.__call__
+
+    async def attempt(self, e, p):
+        idx = len(st["attempts"])
+        if idx >= ATTEMPT_CAP:
+            raise Abort("attempts")
+        st["trace"].append("c")
+        beh = st["plan"][idx] if idx < len(st["plan"]) else ["ok"]
+        st["fault"] = beh if beh[0] not in ("ok", "fail") else None
+        st["es_calls"] = 0
+        v0 = retry_view(p)
+        st["depth"] += 1
+        try:
+            try:
+                r = await orig_call(self, e, p)
+                if beh[0] == "fail":
+                    r = {"weight": 1, "unit": "ops", "success": False}
+                out = (True, r)
+            except Exception as ex:  # pylint: disable=broad-except
+                out = (False, ex)
+        finally:
+            st["depth"] -= 1
+            st["fault"] = None
+        st["attempts"].append({"k": classify_outcome(*out), "obj": out[1], "v0": v0, "v1": retry_view(p), "same_dict": p is st["handed"]})
+        if out[0]:
+            return out[1]
+        raise out[1]
+
+    async def fake_sleep(d, result=None):
+        if st["depth"] == 0:
+            f = Fraction(d)
+            st["trace"].append(f"{f.numerator}/{f.denominator}")
+        else:
+            st["inner_sleeps"] += 1
+        return result
+
+    observed = []
+    wire_invs = []
+    mutated_before = False
+    unencodable = False
+    orig_sleep = asyncio.sleep
+    asyncio.sleep = fake_sleep
+    cls.__call__ = attempt
+    try:
+        for i, plan in enumerate(invs):
+            params = source.params() if shared else copy.deepcopy(pristine)
+            st.update(attempts=[], trace=[], depth=0, plan=plan, handed=params)
+            before = retry_view(params)
+            try:
+                ret = _run(registered(es, params))
+                kind, payload = "returned", ret
+            except Abort as ab:
+                kind, payload = ("pending" if str(ab) == "attempts" else "aborted-inside-attempt"), None
+            except Exception as ex:  # pylint: disable=broad-except
+                kind, payload = "raised", ex
+            atts = st["attempts"]
+            if kind == "aborted-inside-attempt":
+                ctx.count("aborted-inside-attempt(polling runner against the fake cluster)")
+                break
+            if kind == "pending":
+                res = ["pending"]
+            elif kind == "returned" and not atts and payload is None:
+                res = ["fell"]
+            elif atts and atts[-1]["obj"] is payload and (kind == "returned") == (atts[-1]["k"] in VALUE_KINDS):
+                res = [kind, len(atts) - 1]
+            else:
+                res = [kind + "-foreign", type(payload).__name__, str(payload)[:80]]
+            after = retry_view(params)
+            # generic oracle: a runner must not change the retry-relevant keys of the params it is handed
+            if any(before[k] != after[k] or type(before[k]) is not type(after[k]) for k in RETRY_KEYS):
+                mutated_before = True
+                ctx.fail("runner-mutates-retry-parameters",
+                         f"after invocation {i + 1} of {op} the retry parameters of the task's params dict differ from what the task configured",
+                         {k: str(v) for k, v in before.items()}, {k: str(v) for k, v in after.items()})
+            w = []
+            for a in atts:
+                try:
+                    upd = view_update(a["v0"], a["v1"])
+                except ValueError:
+                    upd, unencodable = None, True
+                w.append({"k": a["k"], "upd": upd})
+            wire_invs.append(w)
+            observed.append({"res": res, "trace": list(st["trace"]), "kinds": [a["k"] for a in atts]})
+            # direct oracle: every invocation retries as the TASK is configured
+            if row["doc_retryable"]:
+                exp = oracle(dict(pw, ctor=None), [[k, 0] for k in observed[-1]["kinds"]], ctor_default=(op == "get-async-search"))
+                if exp is not None and [exp[0], exp[1]] != [res, observed[-1]["trace"]]:
+                    if i > 0 and shared and (mutated_before or after != task_view):
+                        c = "later-invocation-not-as-configured"
+                    else:
+                        c = classify_failure(pw, [[k, 0] for k in observed[-1]["kinds"]], exp, (res, observed[-1]["trace"]))
+                        if c == "retry-semantics":
+                            c = "documented-retryable-operation-not-retried"
+                    ctx.fail(c, f"invocation {i + 1} of task {op} (same params dict: {shared}) does not retry as the task is configured",
+                             {"res": exp[0], "trace": exp[1], "delegate outcomes": observed[-1]["kinds"]}, {"res": res, "trace": observed[-1]["trace"]})
+    finally:
+        cls.__call__ = orig_call
+        asyncio.sleep = orig_sleep
+    if observed and not unencodable:
+        a = model_args(dict(pw, ctor=False), [])
+        del a["outs"]
+        a.update(wrapped=row["wrapped"], reg_until=row["until"], shared=shared, invocations=wire_invs)
+        m = ctx.model("retry", "task", a)
+        mm = [{"res": r["res"], "trace": r["trace"]} for r in m["r"]]
+        oo = [{"res": o["res"], "trace": o["trace"]} for o in observed]
+        if mm != oo:
+            ctx.diff("task invocations " + op, {"runs": mm, "row": row}, {"runs": oo, "delegate outcomes": [o["kinds"] for o in observed]})
+    reached = sum(len(o["kinds"]) for o in observed)
+    ctx.count("wrapped" if row["wrapped"] else "plain")
+    for o in observed:
+        for k in o["kinds"]:
+            ctx.count("delegate-outcome:" + k)
+    ctx.count("invocations", len(observed))
+    ctx.count("params-dict:" + ("shared" if shared else "fresh"))
+    ctx.sig([op, shared, [o["res"][0] for o in observed], sorted({k for o in observed for k in o["kinds"]})], nontrivial=reached > 0)
+
+
 STREAMS = [
     Stream("random_scripts", gen_random, run_retry, quick=24000, thorough=1500000, shards=16),
     Stream("all_short_scripts", gen_exhaustive, run_retry, quick=24442, thorough=1, shards=16, exhaustive_thorough=True),
     Stream("registered_ops", gen_registered, run_registered, quick=4000, thorough=60000, shards=8),
+    Stream("task_invocations", gen_task_invocations, run_task_invocations, quick=4000, thorough=60000, shards=16),
 ]
